@@ -234,7 +234,7 @@ def make_fuzz_engine(clauses, quick_runs, thorough_runs, quick_procs=8, thorough
             d = os.path.join(fdir, 'p%d' % i); os.makedirs(os.path.join(d, 'corpus'), exist_ok=True); os.makedirs(os.path.join(d, 'art'), exist_ok=True)
             if i % 2 == 0 and os.path.isdir(seeds):          # half the processes start from the committed seed corpus, half from an empty one
                 for f in glob.glob(os.path.join(seeds, '*')): shutil.copy(f, os.path.join(d, 'corpus'))
-            e = dict(os.environ, FUZZ_CLAUSES=','.join(clauses), FUZZ_KF=env['kf_txt'], FUZZ_STATS=os.path.join(d, 'stats'), ASAN_OPTIONS='detect_leaks=0:abort_on_error=1:symbolize=0:allocator_may_return_null=1', UBSAN_OPTIONS='print_stacktrace=0:symbolize=0:report_error_type=1')
+            e = dict(os.environ, FUZZ_CLAUSES=clauses[i % len(clauses)], FUZZ_KF=env['kf_txt'], FUZZ_STATS=os.path.join(d, 'stats'), ASAN_OPTIONS='detect_leaks=0:abort_on_error=1:symbolize=0:allocator_may_return_null=1', UBSAN_OPTIONS='print_stacktrace=0:symbolize=0:report_error_type=1')
             argv = [exe, '-seed=%d' % (1 + (seed * 7919 + i * 104729) % 2000000000), '-runs=%d' % runs, '-max_len=1600', '-len_control=0', '-use_value_profile=1', '-print_final_stats=1', '-artifact_prefix=' + os.path.join(d, 'art') + '/', os.path.join(d, 'corpus')]
             procs.append((d, subprocess.Popen(argv, stdout=open(os.path.join(d, 'log'), 'w'), stderr=subprocess.STDOUT, env=e)))
         total_exec = 0; cov = []; arts = []
@@ -274,13 +274,23 @@ def make_fuzz_engine(clauses, quick_runs, thorough_runs, quick_procs=8, thorough
             except Exception: pass
         res['evidence'] = dict(id='%s.fuzz' % prop, engine='libFuzzer (coverage + value profile), oracles inside the target', evaluations=total_exec, executions=total_exec,
             distinct_nontrivial=max(c_[2] for c_ in cov) if cov else 0, exhaustive=False,
-            rule='libFuzzer drives the word-stream decoders of clauses %s against the library compiled with clang -O1, ASan, the UBSan checks (stock runtime observed through __ubsan_on_report) and coverage instrumentation; %d processes x %d runs, half seeded from /verif/corpus and half from an empty corpus; only crash artifacts count, each is decoded back into (clause, arguments) and must reproduce 3x through the ordinary replay path; distinct non-trivial cases are counted conservatively as the size of the largest final corpus (inputs that each reached new coverage or value-profile features)' % (', '.join(clauses), nproc, runs),
+            rule='libFuzzer drives the word-stream decoders of clauses %s (one clause per process, round robin; in this mode half of the fixed_t operands are taken verbatim from the input words so that compare tracing can plant the constants the library compares against) against the library compiled with clang -O1, ASan, the UBSan checks (stock runtime observed through __ubsan_on_report) and coverage instrumentation; %d processes x %d runs, half seeded from /verif/corpus and half from an empty corpus; only crash artifacts count, each is decoded back into (clause, arguments) and must reproduce 3x through the ordinary replay path; distinct non-trivial cases are counted conservatively as the size of the largest final corpus (inputs that each reached new coverage or value-profile features)' % (', '.join(clauses), nproc, runs),
             processes=nproc, runs_per_process=runs, final_cov_ft_corpus=cov, artifacts=len(arts), artifacts_not_reproduced=notrepro, cases_judged_by_oracle=ev_cases, nontrivial_cases=ev_nt, wall_s=round(time.time() - t0, 1),
             samples=[dict(note='corpus units are word streams; decoded cases of this engine look like those of clause ' + clauses[0])])
         return res
     return engine
-CHECKS['C07']['extra'] = [make_fuzz_engine(['C07.entry'], 60000, 6000000)]
-CHECKS['C03']['extra'] = [make_fuzz_engine(['C03.divff', 'C03.divint'], 100000, 4000000)]
+FUZZ_PLAN = {   # property: (clauses, quick runs per process, thorough runs per process)
+ 'C01': (['C01.addsub', 'C01.shape'], 400000, 8000000), 'C02': (['C02.mulff', 'C02.mulint'], 400000, 8000000),
+ 'C03': (['C03.divff', 'C03.divint'], 300000, 8000000), 'C04': (['C04.fromint', 'C04.toint'], 200000, 4000000),
+ 'C05': (['C05.f32', 'C05.f64', 'C05.tofp'], 300000, 6000000), 'C06': (['C06.cmp', 'C06.unary'], 400000, 6000000),
+ 'C07': (['C07.entry'], 60000, 1500000), 'C09': (['C09.period'], 300000, 6000000), 'C10': (['C10.rel'], 300000, 6000000),
+ 'C11': (['C11.atan2', 'C11.mono'], 300000, 6000000), 'C12': (['C12.out'], 200000, 3000000), 'C13': (['C13.sqrtrc'], 300000, 6000000),
+ 'C14': (['C14.hypot'], 300000, 8000000), 'C15': (['C15.floorceil'], 400000, 6000000), 'C16': (['C16.int', 'C16.f32', 'C16.f64'], 100000, 2000000),
+ 'C17': (['C17.laws', 'C17.hist'], 200000, 4000000), 'C18': (['C18.shift', 'C18.and'], 400000, 6000000), 'C19': (['C19.angle'], 300000, 4000000),
+ 'C20': (['C20.a2r'], 200000, 3000000),
+}
+for _p, (_cl, _q, _t) in FUZZ_PLAN.items():
+    CHECKS[_p].setdefault('extra', []).append(make_fuzz_engine(_cl, _q, _t))
 
 def setup_extra(env):
     build_fuzz_harness(env['root'], env['build'], env['jobs'], env['log'])
